@@ -139,6 +139,16 @@ def run_property(mod, pid, tier, seed, only=None, jobs=0, keep=False, write_evid
         # ------------------------------------------------------------- replay candidates
         confirmed = []
         from . import replay
+        # A change that compiles with the real containers but not with the overlay's stand-ins cannot be encoded (exit 2).  So that
+        # a broken tree is not waved through as merely inconclusive, the family's native sweep (real containers, random inputs
+        # against the reference) is run in that case; only a natively reproduced failure is reported.
+        build_fail = [m for m in inconclusive if "overlay build / kani invocation failure" in m]
+        if build_fail and getattr(mod, "FALLBACK_SWEEP", None):
+            fmod, ftest = mod.FALLBACK_SWEEP
+            log("  the overlay does not build (%d instance(s)); running the native sweep %s on the real containers" % (len(build_fail), ftest))
+            rep = replay.replay_by_sweep(pid, {"name": "overlay build failure", "candidates": [{"what": build_fail[0][:200]}]}, work, log, module=fmod, testname=ftest)
+            if rep["reproduced"]:
+                confirmed.append(rep)
         for kind, v in violations:
             if kind == "kani":
                 rep = replay.replay_kani(pid, v, work, log)
